@@ -1,7 +1,7 @@
 """C13 — cabinet sets join consistently in any order; bad joins change nothing."""
 import random, itertools
 import vlib
-from vlib import scenario, gen
+from vlib import scenario, gen, cabfmt
 from props.common import proof_broken
 
 EXPLANATION = ("Theorems: the list-level merge (folder absorption with the shared split block counted once, deletion of the duplicate continued-file entries) is "
@@ -101,6 +101,16 @@ def run(res, tier, replay):
             sc.op("cab_new").op("cab_open", "c0", "in0.cab").op("cab_open", "c9", "inx.cab").op("cab_list", "c0").op("cab_list", "c9")
             sc.op("cab_append", "c0", "c9").op("cab_list", "c0").op("cab_list", "c9")
             scns.append(sc); meta.append(("mustrefuse-" + variant, s, None, c))
+        # only ONE side has a folder that continues across the boundary (the other cabinet is complete in itself): not a pair
+        plain_cab = gen.cab_single(rng, nfolders=1, methods=[("none",)]); pc = cabfmt.build_single(plain_cab.folders, rng)
+        first_splits = bool(c.cuts) and c.cuts[0][1] != "end"
+        last_cont = bool(c.cuts) and c.cuts[-1][1] != "end"
+        for left, right, okk in ((c.files[c.parts[0]], pc, first_splits), (pc, c.files[c.parts[-1]], last_cont)):
+            if not okk: continue
+            sc = scenario.Scn().file("in0.cab", left).file("inx.cab", right)
+            sc.op("cab_new").op("cab_open", "c0", "in0.cab").op("cab_open", "c9", "inx.cab").op("cab_list", "c0").op("cab_list", "c9")
+            sc.op("cab_append", "c0", "c9").op("cab_list", "c0").op("cab_list", "c9")
+            scns.append(sc); meta.append(("mustrefuse-onesided", s, None, c))
     trs = scenario.run_scenarios(exe, scns)
     nbad = 0; refl = {}
     for t, (kind, s, order, c), sc in zip(trs, meta, scns):
